@@ -18,11 +18,18 @@ ops (every line starts with `reset`: the harness rebuilds its fixture from the l
                                        P  the user performs <op>
                                      names: comma separated, `-` = empty; u U the user, c p k other accounts, g G guest, z unknown id,
                                      e empty first field; `x*n` repeats (n ≤ 120).   answer: one `ok|err:<id>:same|changed` per P
+  reset thread ao=<self|other> at=<int32> <steps>
+                                     a history on ONE article of board vsrc (CPLOG set) written under the id `verifu` (self) or another
+                                     id, its entry's Modified starting at `at`.  steps, `/`-separated, ≤ 16, ≥ 1 T:
+                                       R  another account comments (Recommend)     C  another account cross-posts it (forward comment)
+                                       E  a sysop edits it                         Ta Tb Tl  the account `verifu` with FirstLogin
+                                       1000000000 / 1500000000 (= the article's creation) / 1550000000 (a LATER account) tries EditPost
+                                     answer: one `<step>:ok|err:<id>:same|changed` per step
   facts                              print the regenerated source-shape facts
 
-<facts> = 33 tokens `key=value` in this order:
-  id ul ud ub uo uf   sn sa sl sg sp su sf sm sb   tn ta tl tg tp tu tf tm tb   a0 af an ae ao am ax   cd pt
-  hex: id ul sn sa sl tn ta tl an ae ao ("-" = empty);  decimal: ud ub uf sg sp su tg tp tu am pt;  0/1: uo sf sm tf tm a0 af ax
+<facts> = 34 tokens `key=value` in this order:
+  id ul ud ub uo uf   sn sa sl sg sp su sf sm sb   tn ta tl tg tp tu tf tm tb   a0 af an ae ao am at ax   cd pt
+  hex: id ul sn sa sl tn ta tl an ae ao ("-" = empty);  decimal: ud ub uf sg sp su tg tp tu am at (int32: the entry's Modified) pt;  0/1: uo sf sm tf tm a0 af ax
   sb/tb ∈ none|act|exp|junk (ban file: absent / expiry now+3600 / now-3600 / unreadable number);
   cd ∈ exp|act|max|neg|negact (cool-down time part: 0 / now+600 masked / 0x7FFFFFF0 / 0 resp. now+600 with bit 31 of the word set)
 
@@ -112,9 +119,9 @@ def cdWord (cd : String) (pt : Nat) : Option UInt32 :=
   t.map (· ||| pt.toUInt32)
 
 def parseRow (ts : List String) : Option Row :=
-  if ts.length ≠ 33 then none else
-  match ts.take 6, (ts.drop 6).take 9, (ts.drop 15).take 9, (ts.drop 24).take 7, ts.drop 31 with
-  | [id, ul, ud, ub, uo, uf], sb, tb, [a0, af, an, ae, ao, am, ax], [cd, pt] => do
+  if ts.length ≠ 34 then none else
+  match ts.take 6, (ts.drop 6).take 9, (ts.drop 15).take 9, (ts.drop 24).take 8, ts.drop 32 with
+  | [id, ul, ud, ub, uo, uf], sb, tb, [a0, af, an, ae, ao, am, atk, ax], [cd, pt] => do
       let id ← (kv "id" id) >>= parseName
       let ul ← (kv "ul" ul) >>= parseHex32
       let ud ← (kv "ud" ud) >>= (parseNat · 10 4294967295)
@@ -129,13 +136,14 @@ def parseRow (ts : List String) : Option Row :=
       let ae ← (kv "ae" ae) >>= parseName
       let ao ← (kv "ao" ao) >>= parseName
       let am ← (kv "am" am) >>= (parseNat · 3 255)
+      let emod ← (kv "at" atk) >>= parseI32
       let ax ← (kv "ax" ax) >>= parseBool
       let cdv ← kv "cd" cd
       let pt ← (kv "pt" pt) >>= (parseNat · 2 15)
       let cdw ← cdWord cdv pt
       pure { u := { id := id, level := ul, loginDays := ud.toUInt32, badPost := ub.toUInt8, over18 := uo, firstLogin := uf },
              src := src, tgt := tgt,
-             art := { total0 := a0, found := af, argName := an, entName := ae, entOwner := ao, entMode := am.toUInt8, fileExists := ax },
+             art := { total0 := a0, found := af, argName := an, entName := ae, entOwner := ao, entMode := am.toUInt8, entModified := emod, fileExists := ax },
              cd := cdw, now := fixedNow }
   | _, _, _, _, _ => none
 
@@ -245,6 +253,32 @@ def friendsStep (op : Op) (hidden : Bool) (st : FState) : FStep → FState
       let o := run op (friendsRow op hidden fr)
       { st with row := row', out := st.out ++ [(match o.err with | none => "ok" | some e => "err:" ++ e) ++ (if o.touched then ":changed" else ":same")] }
 
+/-! histories on one article (`reset thread`) -/
+
+def idOther : List Nat := "CodingMan".toUTF8.toList.map (·.toNat)
+def idSysop : List Nat := "SYSOP".toUTF8.toList.map (·.toNat)
+
+inductive TStep where
+  | recommend | sysopEdit | crosspost | tryEdit (firstLogin : Int)
+
+def parseTStep (s : String) : Option TStep :=
+  if s = "R" then some .recommend else if s = "E" then some .sysopEdit else if s = "C" then some .crosspost
+  else if s = "Ta" then some (.tryEdit 1000000000) else if s = "Tb" then some (.tryEdit 1500000000)
+  else if s = "Tl" then some (.tryEdit 1550000000) else none
+
+def threadStep (st : Article × List String) (t : TStep) : Article × List String :=
+  let (a, out) := st
+  let base : Row := { witnessCoolingDown with cd := 0, art := a, src := { witnessCoolingDown.src with attr := BRD_CPLOG } }
+  let commenter : User := { base.u with id := idOther }
+  let (tag, op, u) : String × Op × User := match t with
+    | .recommend => ("R", .recommend, commenter)
+    | .sysopEdit => ("E", .editpost, { base.u with id := idSysop, level := base.u.level ||| PERM_SYSOP })
+    | .crosspost => ("C", .crosspost, commenter)
+    | .tryEdit fl => ("T", .editpost, { base.u with firstLogin := fl })
+  let o := run op { base with u := u }
+  let a' := if o.err.isNone then touch a (fixedNow : Int) else a
+  (a', out ++ [tag ++ ":" ++ (match o.err with | none => "ok" | some e => "err:" ++ e) ++ (if o.touched then ":changed" else ":same")])
+
 def step (_ : Unit) (ws : List String) : Unit × String :=
   let out := match ws with
     | ["facts"] =>
@@ -259,6 +293,13 @@ def step (_ : Unit) (ws : List String) : Unit × String :=
             let u := witnessCoolingDown.u
             let (rs, w) := flood u b k 0 []
             ",".intercalate rs ++ s!" pt={(posttimesOf w).toNat}"
+        | _, _, _ => "bad-op"
+    | ["reset", "thread", ao, atk, steps] =>
+        match kv "ao" ao, (kv "at" atk) >>= parseI32, (steps.splitOn "/").mapM parseTStep with
+        | some ao, some emod, some sts =>
+            if (ao ≠ "self" && ao ≠ "other") || sts.length > 16 || !sts.any (fun s => match s with | .tryEdit _ => true | _ => false) then "bad-op" else
+            let a : Article := { ownArticle with entOwner := if ao = "self" then idVerif else idOther, entModified := emod }
+            ",".intercalate (sts.foldl threadStep (a, [])).2
         | _, _, _ => "bad-op"
     | ["reset", "friends", op, kind, steps] =>
         match parseOp op, (steps.splitOn "/").mapM parseStep with
